@@ -627,6 +627,98 @@ def run(chk):
         for k in allow:
             if k not in used:
                 chk.info("C03.allow", "allow-list entry %s %s in %s matched nothing on this tree" % (k[0], k[1], name))
+    # ---- C03.blocks: the splitter of the SCHEDULE section into report-step blocks
+    r_bl = chk.rule("C03.blocks", "ScheduleDeck (the splitter of the SCHEDULE section into one keyword block per report step): add_block closes the current block and opens a new one for every time boundary - the only ways out before that are inside `if (context.rst_skip)`, the skipping of the steps a restart has already simulated; DATES records and TSTEP items each call add_block; every other keyword is appended to the last block (or, while skipping, to block 0 if it is one of the keywords kept from the skipped part)", floor=6)
+    from verif.tree import children as _children
+    sd = chk.facts(["opm/input/eclipse/Schedule/ScheduleDeck.cpp"])
+
+    def guarded(body, pred_node, guard_pred):
+        """for every node satisfying pred_node: is it inside the then-branch of an If whose condition satisfies guard_pred?"""
+        out = []
+
+        def rec(n, under):
+            if pred_node(n):
+                out.append((n, under))
+            if n.get("k") == "If" and isinstance(n.get("cond"), dict):
+                g = guard_pred(n["cond"])
+                for key in ("cond", "then", "else"):
+                    x = n.get(key)
+                    if isinstance(x, dict):
+                        rec(x, under or (g and key == "then"))
+                return
+            if n.get("k") == "Lambda":
+                return
+            for c in _children(n):
+                rec(c, under)
+        rec(body, False)
+        return out
+    ab = sd.fn("Opm::ScheduleDeck::add_block")
+    ctor = [f for f in sd.fn("Opm::ScheduleDeck::ScheduleDeck") if len(f["params"]) == 3]
+    ats = sd.fn("Opm::ScheduleDeck::add_TSTEP")
+    if len(ab) != 1 or len(ctor) != 1 or len(ats) != 1:
+        raise core.AnalysisBroken("ScheduleDeck::add_block / constructor(start, deck, rst_info) / add_TSTEP not found")
+    ab, ctor, ats = ab[0], ctor[0], ats[0]
+    tparam = [p_["n"] for p_ in ab["params"] if "time_point" in p_["t"]]
+    cparam = [p_["n"] for p_ in ab["params"] if "ScheduleDeckContext" in p_["t"]]
+    if len(tparam) != 1 or len(cparam) != 1:
+        raise core.AnalysisBroken("add_block: time / context parameter not found")
+    tparam, cparam = tparam[0], cparam[0]
+
+    def is_skip(c, cp):
+        return show(strip(c)) == "%s.rst_skip" % cp
+    exits = guarded(ab["body"], lambda n: n.get("k") in ("Return", "Throw"), lambda c: is_skip(c, cparam))
+    top = stmt_list(ab["body"])
+    tail = [show(x) for x in top[-2:]]
+    loc_p = [p_["n"] for p_ in ab["params"] if "KeywordLocation" in p_["t"]]
+    tt_p = [p_["n"] for p_ in ab["params"] if "ScheduleTimeType" in p_["t"]]
+    want_tail = ["this.m_blocks.back().end_time(%s)" % tparam, "this.m_blocks.emplace_back(%s, %s, %s)" % (loc_p[0] if loc_p else "?", tt_p[0] if tt_p else "?", tparam)]
+    chk.instance(r_bl, "add_block:open", sample=dict(last_statements=tail))
+    if tail != want_tail:
+        chk.violation(r_bl, "add_block:open", "ScheduleDeck::add_block ends with %s; a time boundary closes the current block at its time and opens the next one (%s)" % (tail, want_tail), ab["file"], top[-1]["l"] if top else ab["l"])
+    chk.instance(r_bl, "add_block:exits", sample=dict(early_exits=[dict(line=n["l"], kind=n["k"], under_rst_skip=bool(u)) for n, u in exits]))
+    for n, u in exits:
+        if not u:
+            chk.violation(r_bl, "add_block:exit@%s" % show(n)[:40], "ScheduleDeck::add_block leaves at line %d (`%s`) without opening a block, outside `if (%s.rst_skip)`: in a run that is not restarted the restart time is the default (1 JAN 1970) and every keyword after such a boundary lands in the block of an EARLIER report step - the state of step n then depends on input after step n" % (n["l"], show(n)[:80], cparam), ab["file"], n["l"])
+    # the two kinds of time boundary each reach add_block once per record / item
+    loops_c = [n for n in walk(ctor["body"]) if n["k"] == "ForRange" and "SCHEDULESection" in show(n.get("range"))]
+    if len(loops_c) != 1:
+        raise core.AnalysisBroken("ScheduleDeck constructor: loop over the SCHEDULE section not found")
+    kwv = loops_c[0]["var"]["n"]
+    calls_ab = [n for n in walk(loops_c[0]["body"]) if n["k"] == "MCall" and n.get("m") == "add_block"]
+    rec_loops = [n for n in walk(loops_c[0]["body"]) if n["k"] == "For" and any(x is c_ for c_ in calls_ab for x in walk(n["body"]))]
+    okd = len(calls_ab) == 1 and len(rec_loops) == 1 and show(rec_loops[0]["init"]["vars"][0].get("init")) == "0" and show(rec_loops[0]["cond"]) == "(%s < %s.size())" % (rec_loops[0]["init"]["vars"][0]["n"], kwv) and "++" in show(rec_loops[0].get("inc"))
+    chk.instance(r_bl, "DATES", sample=dict(add_block_calls=[n["l"] for n in calls_ab], record_loop=show(rec_loops[0]["cond"]) if rec_loops else None))
+    if not okd:
+        chk.violation(r_bl, "DATES", "ScheduleDeck constructor: add_block is no longer called once for every record 0..size()-1 of a DATES keyword", ctor["file"], loops_c[0]["l"])
+    ca = [n for n in walk(ats["body"]) if n["k"] == "MCall" and n.get("m") == "add_block"]
+    lt = [n for n in walk(ats["body"]) if n["k"] == "For" and any(x is c_ for c_ in ca for x in walk(n["body"]))]
+    okt = len(ca) == 1 and len(lt) == 1 and show(lt[0]["init"]["vars"][0].get("init")) == "0" and re.fullmatch(r"\(%s < \w+\.data_size\(\)\)" % lt[0]["init"]["vars"][0]["n"], show(lt[0]["cond"])) is not None and "++" in show(lt[0].get("inc"))
+    ex_t = guarded(lt[0]["body"], lambda n: n.get("k") in ("Return", "Break", "Continue"), lambda c: False) if lt else []
+    chk.instance(r_bl, "TSTEP", sample=dict(add_block_calls=[n["l"] for n in ca], item_loop=show(lt[0]["cond"]) if lt else None))
+    if not okt or ex_t:
+        chk.violation(r_bl, "TSTEP", "ScheduleDeck::add_TSTEP: add_block is no longer called once for every item 0..data_size()-1 of the TSTEP record", ats["file"], ats["l"])
+    # where ordinary keywords go
+    pushes = guarded(loops_c[0]["body"], lambda n: n.get("k") == "MCall" and n.get("m") == "push_back" and "m_blocks" in show(n.get("obj")), lambda c: is_skip(c, "context"))
+    ctxv = [v["n"] for n in walk(ctor["body"]) if n["k"] == "Decl" for v in n["vars"] if "ScheduleDeckContext" in (v.get("t") or "")]
+    if ctxv and ctxv[0] != "context":
+        pushes = guarded(loops_c[0]["body"], lambda n: n.get("k") == "MCall" and n.get("m") == "push_back" and "m_blocks" in show(n.get("obj")), lambda c: is_skip(c, ctxv[0]))
+    chk.instance(r_bl, "append", sample=dict(appends=[dict(line=n["l"], to=show(n.get("obj")), while_skipping=bool(u)) for n, u in pushes]))
+    seen_back = False
+    for n, u in pushes:
+        tgt = show(n.get("obj"))
+        if show(n["a"][0]) != kwv:
+            continue
+        if u:
+            if tgt != "this.m_blocks[0]":
+                chk.violation(r_bl, "append:skip", "ScheduleDeck constructor: while skipping, a kept keyword is appended to %s (expected block 0)" % tgt, ctor["file"], n["l"])
+        else:
+            seen_back = seen_back or tgt == "this.m_blocks.back()"
+            if tgt != "this.m_blocks.back()":
+                chk.violation(r_bl, "append:%s" % tgt, "ScheduleDeck constructor: a keyword is appended to %s; outside restart skipping it belongs to the block of the current (= last) report step, never an earlier one" % tgt, ctor["file"], n["l"])
+    chk.instance(r_bl, "append:current", sample=dict(found=seen_back))
+    if not seen_back:
+        chk.violation(r_bl, "append:current", "ScheduleDeck constructor: keywords are no longer appended to m_blocks.back()", ctor["file"], loops_c[0]["l"])
+
     chk.assumptions += [
         "intraprocedural alias classification (verif/cow.py): a handle is followed through references, pointers, smart pointers, iterators and range-for variables; calls are judged by the callee's parameter types",
         "tables/c03_*.json: allow-lists, one (function, item) pair and one reason per entry",
